@@ -8,6 +8,7 @@ package y
 import (
 	"container/heap"
 	"context"
+	"errors"
 	"sync/atomic"
 
 	"github.com/dgraph-io/ristretto/v2/z"
@@ -53,34 +54,51 @@ type WaterMark struct {
 	lastIndex atomic.Uint64
 	Name      string
 	markCh    chan mark
+	closer    *z.Closer
 }
+
+// ErrWaterMarkStopped is returned by WaitForMark when the closer given to Init has been
+// signalled: the mark no longer advances, so the wait could never end.
+var ErrWaterMarkStopped = errors.New("watermark has been stopped")
 
 // Init initializes a WaterMark struct. MUST be called before using it.
 func (w *WaterMark) Init(closer *z.Closer) {
 	w.markCh = make(chan mark, 100)
+	w.closer = closer
 	go w.process(closer)
+}
+
+// send hands m over to process. Once the closer has been signalled, process is gone and nobody
+// drains markCh any more, so the mark is dropped instead of blocking the caller forever.
+func (w *WaterMark) send(m mark) bool {
+	select {
+	case w.markCh <- m:
+		return true
+	case <-w.closer.HasBeenClosed():
+		return false
+	}
 }
 
 // Begin sets the last index to the given value.
 func (w *WaterMark) Begin(index uint64) {
 	w.lastIndex.Store(index)
-	w.markCh <- mark{index: index, done: false}
+	w.send(mark{index: index, done: false})
 }
 
 // BeginMany works like Begin but accepts multiple indices.
 func (w *WaterMark) BeginMany(indices []uint64) {
 	w.lastIndex.Store(indices[len(indices)-1])
-	w.markCh <- mark{index: 0, indices: indices, done: false}
+	w.send(mark{index: 0, indices: indices, done: false})
 }
 
 // Done sets a single index as done.
 func (w *WaterMark) Done(index uint64) {
-	w.markCh <- mark{index: index, done: true}
+	w.send(mark{index: index, done: true})
 }
 
 // DoneMany works like Done but accepts multiple indices.
 func (w *WaterMark) DoneMany(indices []uint64) {
-	w.markCh <- mark{index: 0, indices: indices, done: true}
+	w.send(mark{index: 0, indices: indices, done: true})
 }
 
 // DoneUntil returns the maximum index that has the property that all indices
@@ -100,19 +118,24 @@ func (w *WaterMark) LastIndex() uint64 {
 	return w.lastIndex.Load()
 }
 
-// WaitForMark waits until the given index is marked as done.
+// WaitForMark waits until the given index is marked as done. It returns ErrWaterMarkStopped if
+// the closer given to Init is signalled first.
 func (w *WaterMark) WaitForMark(ctx context.Context, index uint64) error {
 	if w.DoneUntil() >= index {
 		return nil
 	}
 	waitCh := make(chan struct{})
-	w.markCh <- mark{index: index, waiter: waitCh}
+	if !w.send(mark{index: index, waiter: waitCh}) {
+		return ErrWaterMarkStopped
+	}
 
 	select {
 	case <-ctx.Done():
 		return ctx.Err()
 	case <-waitCh:
 		return nil
+	case <-w.closer.HasBeenClosed():
+		return ErrWaterMarkStopped
 	}
 }
 
